@@ -141,3 +141,13 @@ def quake_text(pid, tier, w, v):
     r = vh(["quaketext", "--in", f], name=pid.lower() + "qt")
     v.add_report(r, "quake text lines")
     return [r], mc
+
+
+def mc_text(pid, tier, w, v):
+    quick = tier != "thorough"
+    mc = [tlc_mc("MC_McText.tla", "MC_McText.cfg", workers=4, name=pid.lower() + "_mtmc")]
+    f = f"{w}/mctext.ndjson"
+    mc.append(tlc_gen("MC_McText.tla", "Gen_McText.cfg" if quick else "Gen_McText_t.cfg", "CASE", f, name=pid.lower() + "_mtgen", timeout=1800))
+    r = vh(["mctext", "--in", f], name=pid.lower() + "mt")
+    v.add_report(r, "minecraft status strings")
+    return [r], mc
